@@ -35,6 +35,8 @@ def exact_family(chk, rng, n_cases, found):
     for i in range(n_cases):
         name = EXACT[i % len(EXACT)]
         cat = rng.choice(["generic", "conflict", "conflict", "antiparallel", "dup_rows", "rank_def", "one_row"])
+        if [-46, -36, 40, 0, -9, 3][(i // len(EXACT)) % 6] == -9:
+            cat = "conflict"
         J, cat = A.gen_matrix(rng, cat=cat, mmax=4, nmax=5, scale_exp=[-46, -36, 40, 0, -9, 3][(i // len(EXACT)) % 6])   # every aggregator at every scale
         if name in ("ConFIG", "PCGrad") and any(all(x == 0 for x in r) for r in J):
             continue
@@ -51,6 +53,10 @@ def exact_family(chk, rng, n_cases, found):
         tiny = [-46, -36, 40, 0, -9, 3][(i // len(EXACT)) % 6] == -46
         c1, c2 = gen_c(rng, m, 0 if tiny else 10), gen_c(rng, m, 0 if tiny else 10)
         a, b = (F(2) ** rng.randint(-3, 0), F(rng.randint(1, 4), 4)) if tiny else (F(2) ** rng.randint(-3, 3), F(rng.randint(1, 7), 4))
+        if [-46, -36, 40, 0, -9, 3][(i // len(EXACT)) % 6] == -9 and m >= 2:
+            # not left to chance: one row of diag(c1) J far below norm 1e-4, its neighbour far above
+            c1[1], c2[1] = F(1, 2 ** 10), F(1, 2 ** 7)
+            c1[0], c2[0] = F(2) ** rng.randint(3, 8), F(2) ** rng.randint(3, 8)
         c3 = [a * x + b * y for x, y in zip(c1, c2)]
         c = {"name": name, "params": p, "J": J, "cat": cat}
         chk.count(R.case_json(c) | {"c1": A.jsonable(c1), "c2": A.jsonable(c2), "a": str(a), "b": str(b)},
